@@ -4,6 +4,7 @@ import props_wiring as pw
 import props_profiles as pp
 import props_cache as pc
 import props_state as pst
+import props_io as pio
 
 CHECKS = {
     "C01": ps.check_C01,
@@ -23,4 +24,5 @@ CHECKS = {
     "C15": pc.check_C15,
     "C16": pw.check_C16,
     "C17": pw.check_C17,
+    "C18": pio.check_C18,
 }
